@@ -90,6 +90,10 @@ var lamDefs = []lamDef{
 	{"rest", "(x &rest r)", "(cons x r)", []string{"1", "1 2 3"}},
 	{"doc", "(x)", `"Doc short." (* x x)`, []string{"3"}},
 	{"doc-long", "(x)", longDoc + " (* x x)", []string{"3"}},
+	// documentation text is data: characters that mean something to the documentation renderer or to the reader stay
+	{"doc-underscore", "(x)", `"Doc with an under_score and _emphasis_ in it." (* x x)`, []string{"3"}},
+	{"doc-quote", "(x)", `"Doc with a \"quoted\" word and a back\\slash." (* x x)`, []string{"3"}},
+	{"string-only-body", "()", `"under_score \"q\" is the value"`, []string{""}},
 	{"let", "(x)", `(let ((a (+ x 1)) (b (* x 2)) (c "str ing") d) (list a b c d))`, []string{"1", "10"}},
 	{"let-star", "(x)", `(let* ((a (+ x 1)) (b (* a 2)) (c (list a b))) (list a b c))`, []string{"1", "10"}},
 	{"let-long", "(x)", `(let ((alpha-variable (+ x 100000)) (beta-variable (* x 200000)) (gamma-variable "a string value") (delta-variable '(1 2 3))) (list alpha-variable beta-variable gamma-variable delta-variable))`, []string{"1", "7"}},
@@ -204,6 +208,12 @@ func init() {
 	data("vector", "adjustable", "vec:adjustable", "(make-array 3 :adjustable t :initial-contents '(1 2 3))")
 	data("vector", "fill-pointer", "vec:fill-pointer", "(make-array 5 :fill-pointer 2 :initial-contents '(1 2 3 4 5))")
 	data("vector", "element-type", "vec:element-type", "(make-array 3 :element-type 'fixnum :initial-contents '(1 2 3))")
+	// vectors that changed size after they were made
+	data("vector", "grown", "vec:grown", "(let ((v (make-array 2 :fill-pointer 2 :adjustable t :initial-contents '(1 2)))) (vector-push-extend 3 v) (vector-push-extend 4 v) v)")
+	data("vector", "popped-then-grown", "vec:popped-grown", "(let ((v (make-array 4 :fill-pointer 3 :adjustable t :initial-contents '(1 2 3 4)))) (vector-pop v) (vector-push-extend 8 v) (vector-push-extend 9 v) (vector-push-extend 10 v) v)")
+	data("vector", "pushed-within-size", "vec:pushed", "(let ((v (make-array 4 :fill-pointer 1 :initial-contents '(1 2 3 4)))) (vector-push 9 v) v)")
+	data("vector", "adjusted", "vec:adjusted", "(adjust-array (make-array 2 :adjustable t :initial-contents '(1 2)) 4 :initial-element 7)")
+	data("vector", "adjusted-smaller", "vec:adjusted-smaller", "(adjust-array (make-array 4 :adjustable t :initial-contents '(1 2 3 4)) 2)")
 	data("vector", "octets", "vec:octets", `(coerce '(1 2 255) 'octets)`)
 	data("vector", "bit-vector", "vec:bit-vector", `#*10110`)
 	// ----------------------------------------------------------------- arrays
@@ -350,6 +360,12 @@ func init() {
 	flv("inherit-override-default", `(defflavor $b ((x 1)) ()) (defflavor $f ((x 5)) ($b))`,
 		[]string{"(make-load-form '$b)", "(make-load-form '$f)"},
 		"(c19-instance-dump (make-instance '$f))", "(c19-instance-dump (make-instance '$b))")
+	// defaults of an inherited variable that are not comparable with == in Go (a list, a vector, a hash table, a string)
+	for _, dv := range [][2]string{{"list", "(list 1 2)"}, {"vector", "(vector 1 2)"}, {"string", `"s t"`}, {"quoted-list", "'(a (b))"}, {"hash", "(make-hash-table)"}} {
+		flv("inherit-default-"+dv[0], "(defflavor $b ((x "+dv[1]+")) () :gettable-instance-variables) (defflavor $f ((y 2)) ($b))",
+			[]string{"(make-load-form '$b)", "(make-load-form '$f)"},
+			"(c19-instance-dump (make-instance '$f))", "(make-load-form '$b)")
+	}
 	flv("included", `(defflavor $b ((x 1)) ()) (defflavor $f ((y 2)) () (:included-flavors $b))`,
 		[]string{"(make-load-form '$b)", "(make-load-form '$f)"},
 		"(c19-instance-dump (make-instance '$f))")
